@@ -70,6 +70,7 @@ type Step struct {
 	HeadNum  uint64
 	HeadID   string
 	Junction bstream.BlockRef // for undo steps
+	EndNil   bool             // the block source shuts down cleanly after this step (streamRunner returns nil)
 }
 
 type obj struct {
@@ -112,6 +113,10 @@ type Source interface {
 type LinearChain struct {
 	Head  uint64
 	Final uint64
+	// CleanEndAt > 0: the block source shuts down cleanly (Run returns nil, not EOF) right after delivering block
+	// CleanEndAt, in the tier1 stream (CleanEndTier2 false) or in the tier2 job whose segment holds it (true)
+	CleanEndAt    uint64
+	CleanEndTier2 bool
 }
 
 func (c LinearChain) Steps(start, stop uint64, cursor string, tier2 bool) []Step {
@@ -131,6 +136,10 @@ func (c LinearChain) Steps(start, stop uint64, cursor string, tier2 bool) []Step
 			s.Step, s.LIBNum, s.LIBID = bstream.StepNew, c.Final, BlockID(c.Final)
 		}
 		out = append(out, s)
+		if c.CleanEndAt != 0 && n == c.CleanEndAt && tier2 == c.CleanEndTier2 {
+			out[len(out)-1].EndNil = true
+			break
+		}
 	}
 	return out
 }
@@ -158,6 +167,9 @@ func (r *streamRunner) Run(ctx context.Context) error {
 		}
 		if r.onBlock != nil {
 			r.onBlock(s)
+		}
+		if s.EndNil {
+			return nil // a clean shutdown of the block source before the stop block
 		}
 	}
 	return io.EOF
